@@ -197,10 +197,14 @@ package interp
 //@   opt opaque-havoc = none
 //@   requires [assume] ctx != nil && interp != nil
 //@   ensures rejected-file-adds-no-tags: !ok ==> sameTags(ctx)
-//@   loop 1
+//@   -- the file is selected only if EVERY constraint line of EVERY comment group of its header holds
+//@   opt record-calls = buildLineOk
+//@   loop 1 index gi
 //@   invariant constraints-evaluated-in-the-given-context: sameTags(ctx)
+//@   after every-comment-group-of-the-header-is-examined: gi == len(f.Comments)
 //@   loop 2
 //@   invariant constraints-evaluated-in-the-given-context: sameTags(ctx)
+//@   step [next] the-line-is-evaluated-in-the-given-context-and-holds: called(buildLineOk) && lastArg(buildLineOk, 0) == ctx && lastArg(buildLineOk, 1) == line && lastRes(buildLineOk, 0)
 //@   canary !ok
 
 // Where selection is applied.  parse: a source is handed to the Go parser only after buildOk accepted it
